@@ -113,13 +113,30 @@ func c14Eval(c *ctx, cs c14Case) {
 		if build(func() { msg = ast.NewHSMSMessageLinktestReq(sys) }) {
 			c14Expect(c, cs.Op, msg, hdr(0xFFFF, 0, 0, 5, sys), "linktest.req", cs)
 		}
-	case "select.rsp":
-		if build(func() { msg = ast.NewHSMSMessageSelectRsp(ast.NewHSMSMessageSelectReq(s16, sys), byte(cs.Code)) }) {
-			c14Expect(c, cs.Op, msg, hdr(cs.Session, 0, byte(cs.Code), 2, sys), "select.rsp", cs)
+	case "select.rsp", "deselect.rsp":
+		// ONE request object is answered three times, with the status of this case in the middle: every answer carries
+		// its own status (a request is not changed by being answered, and does not remember its answer)
+		stype, rspType := byte(2), "select.rsp"
+		var req ast.HSMSMessage
+		mk := func(code byte) func() {
+			return func() {
+				if cs.Op == "select.rsp" {
+					msg = ast.NewHSMSMessageSelectRsp(req, code)
+				} else {
+					msg = ast.NewHSMSMessageDeselectRsp(req, code)
+				}
+			}
 		}
-	case "deselect.rsp":
-		if build(func() { msg = ast.NewHSMSMessageDeselectRsp(ast.NewHSMSMessageDeselectReq(s16, sys), byte(cs.Code)) }) {
-			c14Expect(c, cs.Op, msg, hdr(cs.Session, 0, byte(cs.Code), 4, sys), "deselect.rsp", cs)
+		if cs.Op == "select.rsp" {
+			req = ast.NewHSMSMessageSelectReq(s16, sys)
+		} else {
+			req = ast.NewHSMSMessageDeselectReq(s16, sys)
+			stype, rspType = 4, "deselect.rsp"
+		}
+		for _, code := range []byte{byte(cs.Code) ^ 0xFF, byte(cs.Code), byte(cs.Code) + 1} {
+			if build(mk(code)) {
+				c14Expect(c, cs.Op, msg, hdr(cs.Session, 0, code, stype, sys), rspType, cs)
+			}
 		}
 	case "linktest.rsp":
 		if build(func() { msg = ast.NewHSMSMessageLinktestRsp(ast.NewHSMSMessageLinktestReq(sys)) }) {
